@@ -11,6 +11,8 @@ InRange(alt) == FLe(FZero, alt) /\ FLe(alt, FInt(20))        \* decay altitudes 
 (* distance along a straight line leaving the surface at emergence angle beta, from the surface to altitude z *)
 Along(z, beta, R) == FSub(FSqrt(FAdd(FAdd(FSq(FMul(R, FSin(beta))), FMul(FMul(FTwo, R), z)), FSq(z))), FMul(R, FSin(beta)))
 (* shower (at altitude z) to detector (at altitude Z) *)
+(* altitude of the point at distance s along that line (law of cosines; compared in altitude, where it is well conditioned) *)
+AltAt(s, beta, R) == FSub(FSqrt(FAdd(FAdd(FSq(s), FMul(FMul(FTwo, s), FMul(R, FSin(beta)))), FSq(R))), R)
 Dist(z, Z, beta, R) == FSub(Along(Z, beta, R), Along(z, beta, R))
 (* inverse-square scaling of the photon density from the reference orbit to a detector at altitude Z *)
 ScaleFactor(z, Z, beta, R) == FSq(FDiv(Dist(z, RefOrbit, beta, R), Dist(z, Z, beta, R)))
